@@ -217,14 +217,16 @@ void sqf::fileio::impl_default::add_pbo_mapping(rvutils::pbo::pbofile& pbo)
     }
 
     m_pbos[pbo.path().lexically_normal().string()] = pbo;
-    std::filesystem::path prefix(*prefix_optional);
+    // PBOs use backslashes in their prefix and entry names; the virtual file tree is separated by slashes
+    auto to_slashes = [](std::string str) -> std::string { std::replace(str.begin(), str.end(), '\\', '/'); return str; };
+    std::filesystem::path prefix(to_slashes(*prefix_optional));
 
 
     // We need to register all files with the virtual pathing
     for (auto& file_desc : pbo.files())
     {
         // Construct file path
-        auto file_path = (prefix / file_desc.name).lexically_normal();
+        auto file_path = (prefix / to_slashes(file_desc.name)).lexically_normal();
         auto path_iter = file_path.begin();
 
         // Navigate to last available virtual file node from root node
@@ -246,9 +248,13 @@ void sqf::fileio::impl_default::add_pbo_mapping(rvutils::pbo::pbofile& pbo)
         else
         {
             ++path_iter;
-            std::unordered_map<std::string, std::shared_ptr<path_element>>::iterator nextnav;
-            while ((nextnav = nav->second->next.find(path_iter->string())) != nav->second->next.end() && path_iter != file_path.end())
+            while (path_iter != file_path.end())
             {
+                auto nextnav = nav->second->next.find(path_iter->string());
+                if (nextnav == nav->second->next.end())
+                {
+                    break;
+                }
                 nav = nextnav;
                 path_iter++;
             }
@@ -285,7 +291,9 @@ void sqf::fileio::impl_default::add_pbo_mapping(std::filesystem::path p)
         log(logmessage::fileio::PBOAlreadyAdded(p.string()));
         return;
     }
-    rvutils::pbo::pbofile pbo(p);
+    // Mounting only ever reads: a missing archive is reported, not created
+    rvutils::pbo::pbofile pbo;
+    pbo.open(p);
     if (!pbo.good())
     {
         log(logmessage::fileio::FailedToParsePBO(p.string()));
@@ -353,10 +361,17 @@ std::string sqf::fileio::impl_default::read_file(sqf::runtime::fileio::pathinfo 
                 log(logmessage::fileio::PBOHasNoPrefixAttribute(physical.lexically_normal().string()));
                 return {};
             }
-            auto prefix = prefix_optional.value();
-            auto pbo_path = info.virtual_;
+            // The entry name is what follows the prefix in the virtual path, written with backslashes
+            auto strip = [](std::string str) -> std::string
+            {
+                std::replace(str.begin(), str.end(), '\\', '/');
+                while (!str.empty() && str.front() == '/') { str.erase(str.begin()); }
+                return str;
+            };
+            auto prefix = strip(prefix_optional.value());
+            auto pbo_path = strip(info.virtual_);
 
-            if (pbo_path.length() > prefix.length() + 1)
+            if (pbo_path.length() > prefix.length() + 1 && pbo_path.compare(0, prefix.length(), prefix) == 0 && pbo_path[prefix.length()] == '/')
             {
                 pbo_path = pbo_path.substr(prefix.length() + 1);
             }
